@@ -142,6 +142,7 @@ func runCaseEx(c *Case) (out *Outcome, classes []string, err error) {
 		}
 	}()
 	e.fs = NewFS(dir, c.Faults)
+	defer e.fs.Cleanup()
 	e.fs.NoData = hasBig(c.Prog) // no crash images in such cases: do not keep copies of 16 MiB writes
 	registerFS(e.fs)
 	defer unregisterFS(e.fs)
